@@ -299,7 +299,26 @@ func (fx *FnExec) subRef(structT types.Type, field int, ref *Term) *Term {
 	name := "sub|" + typeKey(structT) + "|" + st.Field(field).Name()
 	t := fx.c.App(name, RefSort, ref)
 	fx.subNonNil(t)
+	fx.arrayLenFact(t, st.Field(field).Type())
 	return t
+}
+
+// arrayLenFact: an array-typed field or element is an array object of exactly its type's length;
+// together with off+cap <= alen(ref) for every slice value this keeps a slice whose window is longer
+// than N from aliasing an [N]T field.
+func (fx *FnExec) arrayLenFact(ref *Term, t types.Type) {
+	at, ok := under(t).(*types.Array)
+	if !ok || ref.open || fx.noAssume {
+		return
+	}
+	if fx.alenSeen == nil {
+		fx.alenSeen = map[*Term]bool{}
+	}
+	if fx.alenSeen[ref] {
+		return
+	}
+	fx.alenSeen[ref] = true
+	fx.assumeGlobal(fx.c.Eq(fx.c.App("alen", BV(64), ref), fx.bv64(at.Len())))
 }
 
 // subNonNil: ground facts for a closed interior reference: never nil, interior (distinct from
@@ -363,6 +382,7 @@ func (fx *FnExec) interiorAxioms(name string, arity int) {
 func (fx *FnExec) elemRef(elemT types.Type, ref, idx *Term) *Term {
 	t := fx.c.App("elem|"+typeKey(elemT), RefSort, ref, idx)
 	fx.subNonNil(t)
+	fx.arrayLenFact(t, elemT)
 	return t
 }
 
@@ -507,7 +527,9 @@ func (fx *FnExec) assumeSliceInv(s SliceV) {
 	fx.assumeGlobal(c.And(
 		c.BVCmp("bvsle", z, s.Off), c.BVCmp("bvsle", z, s.Len), c.BVCmp("bvsle", s.Len, s.Cap),
 		c.BVCmp("bvsle", s.Cap, lim), c.BVCmp("bvsle", s.Off, lim),
-		c.Implies(c.Eq(s.Ref, fx.nilRef()), c.Eq(s.Cap, z))))
+		c.Implies(c.Eq(s.Ref, fx.nilRef()), c.Eq(s.Cap, z)),
+		// the window lies inside the array object it points into
+		c.BVCmp("bvsle", c.BVBin("bvadd", s.Off, s.Cap), c.App("alen", BV(64), s.Ref))))
 }
 
 func (fx *FnExec) assumeStrInv(s StrV) {
@@ -712,6 +734,7 @@ func (fx *FnExec) storeElem(st *State, et types.Type, ref, idx *Term, v Val) {
 		inner := fx.c.Select(fam, ref)
 		ninner := fx.c.Store(inner, idx, lvs[k])
 		fx.setFamily(st, key, fx.c.Store(fam, ref, ninner))
+		fx.curPC = st.pc
 		fx.arrayUpdated(inner, ninner, idx, fx.bv64(1))
 	}
 }
@@ -823,6 +846,9 @@ func (fx *FnExec) load(st *State, p PtrV) Val {
 		a := fx.c.ConstArr(src.Sort, fx.zeroVal(arrT.Elem()).(*Term))
 		for k := int64(0); k < n; k++ {
 			a = fx.c.Store(a, fx.bv64(k), fx.c.Select(src, fx.c.BVBin("bvadd", p.Idx, fx.bv64(k))))
+		}
+		if src.Sort == byteArr {
+			fx.assumeGlobal(fx.c.Eq(fx.rngTerm(a, fx.bv64(0), fx.bv64(n)), fx.rngTerm(src, p.Idx, fx.bv64(n))))
 		}
 		return a
 	}
